@@ -304,7 +304,10 @@ class _ParseTreeProcessor(parsimonious.NodeVisitor):
         return _serializable.VoidType(width)
 
     def visit_type_bit_length_suffix(self, node: _Node, _c: _Children) -> int:
-        return int(node.text)
+        try:
+            return int(node.text)
+        except ValueError:  # The suffix is too long, see sys.set_int_max_str_digits().
+            raise DSDLSyntaxError("Cannot parse the bit length suffix %s..." % node.text[:32]) from None
 
     # ================================================== Expressions ==================================================
 
